@@ -409,6 +409,23 @@ fn judge(t: &Trace<'_>, conn: usize, frames: &[Judged], bad_tail: Option<&'stati
                         }
                     }
                     at.and_then(|ev| t.op_at(ev)).map(|o| &t.log.ops[o])
+                } else if c.in_read > ip.start && c.in_read < ip.start + j.frame.len() {
+                    // a frame that fits the buffer, read in part, after which the client stopped
+                    // reading: judged by the call that gave up on it with an error
+                    let mut got = 0usize;
+                    let mut at = None;
+                    for (ev, e) in w.events.iter().enumerate() {
+                        if let Ev::Io { conn: cc, kind: IoKind::Read, ans: IoAns::Bytes(n), .. } = e {
+                            if *cc == conn {
+                                got += n;
+                                if got > ip.start {
+                                    at = Some(ev);
+                                    break;
+                                }
+                            }
+                        }
+                    }
+                    at.and_then(|ev| t.log.ops.iter().find(|o| o.conn == Some(conn) && o.ev_ret >= ev && matches!(o.outcome, Outcome::Err(_))))
                 } else {
                     None
                 }
